@@ -31,3 +31,13 @@ def c14(tier, seed, only):
     chk = Check("C14", tier, seed)
     batch = propfam.run_catalogue(chk, ["C14"], algs=only)
     return chk.finish({"prop": batch})
+
+
+@check("C07")
+def c07(tier, seed, only):
+    chk = Check("C07", tier, seed)
+    batch = propfam.run_catalogue(chk, ["C07"], algs=only)
+    n_ent = sum(r["counts"].get("status:2", 0) for r in chk.runs)
+    chk.require("C07", n_ent > 0, "no path answered ENTAILMENT")
+    chk.extra_cov["entailment_paths"] = n_ent
+    return chk.finish({"prop": batch})
